@@ -116,6 +116,14 @@ def eval_own(c, rec):
         for kid, dt in c['signers']:
             signer = keypool.pgpy_key(keypool.ref_cert(kid, secret=True))
             msg |= signer.sign(msg, created=datetime.datetime.fromtimestamp(1600000000 + dt, datetime.timezone.utc))
+            # the message is exported after every added signature (a history, not only the final state):
+            # each intermediate export must itself be a derivable message with correctly paired one-pass packets
+            try:
+                im = grammar.parse_message(bytes(msg))
+                for pp in grammar.check_onepass(im):
+                    rec.finding('grammar', 'intermediate-export/' + ('onepass-last-flag' if 'last-flag' in pp else 'onepass-pairing'), c, pp)
+            except wire.WireError as e:
+                rec.finding('grammar', 'intermediate-export/not-derivable', c, str(e))
         before = snapshot(msg)
         blob = bytes(msg)
         transport = str(msg) if c['transport'] == 'asc' else blob
